@@ -229,6 +229,10 @@ void CmdOptions::optionCount(Option& opt)
 
   int n = opt.getValue<int>();
 
+  // 0 and negative numbers contain no valid digit 1..6
+  if (n <= 0)
+    throw primesieve_error("invalid option '" + opt.str + "'");
+
   for (; n > 0; n /= 10)
   {
     switch (n % 10)
